@@ -288,6 +288,34 @@ impl Polygon3D {
                 } // end iterating inner loops
             } // end iterating exterior vertices
 
+            // A vertex that already carries a bridge appears more than once in the
+            // exterior loop: go inside through the copy whose corner contains the new bridge
+            // (through any other copy, the merged loop would cross itself at that vertex)
+            if min_distance < 9E14 {
+                let ext_vertex = ret_loop[min_ext_vertex_id];
+                let bridge = self.inner[min_inner_loop_id][inner_vertex_id] - ext_vertex;
+                for j in 0..n_ext_vertices {
+                    if ret_loop[j] != ext_vertex {
+                        continue;
+                    }
+                    let into = ext_vertex - ret_loop[(j + n_ext_vertices - 1) % n_ext_vertices];
+                    let out = ret_loop[(j + 1) % n_ext_vertices] - ext_vertex;
+                    let left_of_into = into.cross(bridge) * outer_normal;
+                    let left_of_out = out.cross(bridge) * outer_normal;
+                    let in_corner = if into.cross(out) * outer_normal >= 0. {
+                        // convex corner
+                        left_of_into > 0. && left_of_out > 0.
+                    } else {
+                        // reflex corner
+                        !(left_of_into <= 0. && left_of_out <= 0.)
+                    };
+                    if in_corner {
+                        min_ext_vertex_id = j;
+                        break;
+                    }
+                }
+            }
+
             // Now, pass the inner loop to the exterior loop
             // by connecting them
             let mut aux = Loop3D::new();
